@@ -29,6 +29,8 @@ OpsHistInsClone   == {"insert", "clone"}
 OpsHistInsErClone == {"insert", "erase", "clone"}
 OpsSimIns    == {"insert", "dispatch", "clone"}
 OpsSimInsEr  == {"insert", "erase", "dispatch", "clone"}
+OpsTableBeh  == {"insertb", "dispatch", "new2"}
+OpsHistNew2  == {"insert2", "erase", "clone", "new2"}
 OpsStateless == {"static", "accept", "cyclic"}
 OpsAll       == {"insert2", "erase", "dispatch", "clone", "static", "accept", "cyclic"}
 NoPlans   == {}
@@ -55,6 +57,8 @@ PNext ==
     \/ PC("insert2")  /\ \E d \in SlotsLive, t \in MyTuples, h \in 1..2 : Insert(d, t, h)
     \/ PC("erase")    /\ \E d \in SlotsLive, t \in MyTuples : Erase(d, t)
     \/ PC("dispatch") /\ \E d \in SlotsLive, os \in ObjTuples(cfg.ar, cfg.k), xs \in XsDomain(cfg.nx) : Dispatch(d, os, xs)
+    \/ PC("insertb")  /\ \E d \in SlotsLive, t \in MyTuples, h \in BehIds : Insert(d, t, h)
+    \/ PC("new2")     /\ New2
     \/ PC("clone")    /\ ((\E how \in CloneHows : Clone(how)) \/ (\E how \in TakeHows : Take(how)) \/ Drop2)
 PSpec  == PInit /\ [][PNext]_vars
 PBound == Len(hist) <= PlanOf.mh /\ Cardinality(Registered) <= PlanOf.mc /\ Cardinality(Registered2) <= PlanOf.mc
